@@ -40,6 +40,8 @@ func c02Devices() map[string]c02Dev {
 	return map[string]c02Dev{
 		"A": {"A", 1, key("devA"), 1350, 500},
 		"B": {"B", 2, key("devB"), 9, 5},
+		// capacity 2^64-1 ("unlimited"): 1.35 x capacity does not fit 64 bits; no non-negative report is over capacity
+		"C": {"C", 4, key("devC"), 1<<63 - 1, 500},
 	}
 }
 
@@ -144,6 +146,12 @@ func c02Exec(raw json.RawMessage, hist []string, deep bool) *bfsResult {
 	base := uint32(a.Rotations) * mWeek
 	w.setNow(base + c02Now)
 	devs := c02Devices()
+	if _, ok := a.Slots["C"]; ok {
+		if code, out := w.doAuthorize(w.signAuth(authFor(devs["C"].id, devs["C"].k, 1<<64-1), w.GCA.Priv)); code != 200 || out != authAdded {
+			res.fail("harness/setup", fmt.Sprint("authorization of the unlimited-capacity device answered ", code))
+			return res
+		}
+	}
 	sets := map[string]map[string][]byte{} // "dev/slot" -> distinct datagrams received
 	first := map[string]string{}
 	for i, op := range hist {
@@ -281,9 +289,9 @@ func init() {
 		p := pool.New(0)
 		st := bfsPool(run, p, "c02", arg, depth, 0, func([]string) []string { return ops })
 		// the same search in a window that has rotated (offset 2016): indices and timeslots differ there
-		arg2 := c02Arg{Slots: map[string][]int{"A": {0}, "B": {0}}, Rotations: 1}
+		arg2 := c02Arg{Slots: map[string][]int{"A": {0}, "C": {0}}, Rotations: 1}
 		if tier == "thorough" {
-			arg2 = c02Arg{Slots: map[string][]int{"A": {0, 1}, "B": {0}}, Rotations: 2}
+			arg2 = c02Arg{Slots: map[string][]int{"A": {0, 1}, "B": {0}, "C": {0}}, Rotations: 2}
 		}
 		ops2 := c02Ops(arg2)
 		st2 := bfsPool(run, p, "c02", arg2, depth, 0, func([]string) []string { return ops2 })
